@@ -84,7 +84,23 @@ func (rp *replayer) run() {
 			declared[strings.Fields(cmd)[1]] = true
 		}
 	}
-	plan := &xplan{vc: vc, declared: declared, maxElems: 5}
+	tries := 0
+	// scopes: small first (5 elements per string/slice), then 12
+	for _, scope := range []int{5, 12} {
+		if rp.f.input {
+			break
+		}
+		tries += rp.runScope(vc, declared, scope, tries)
+	}
+	if tries == 0 {
+		rp.log.WriteString("\nreplay: the solvers produced no candidate input (exact model and small-scope search both failed)\n")
+	}
+}
+
+func (rp *replayer) runScope(vc *VC, declared map[string]bool, scope int, base int) int {
+	fr := rp.f.fr
+	fn, c := fr.Fn, fr.Contract
+	plan := &xplan{vc: vc, declared: declared, maxElems: scope}
 	var roots []*xnode
 	for i, p := range fn.Params {
 		roots = append(roots, plan.build(p.Type(), fr.ParamConsts[i], 0))
@@ -122,12 +138,10 @@ func (rp *replayer) run() {
 			if len(eqs) > 0 {
 				block = append(block, "(not (and "+strings.Join(eqs, " ")+"))")
 			}
-			rp.tryCandidate(roots, wnames, tries)
+			rp.tryCandidate(roots, wnames, base+tries)
 		}
 	}
-	if tries == 0 {
-		rp.log.WriteString("\nreplay: the solvers produced no candidate input (exact model and small-scope search both failed)\n")
-	}
+	return tries
 }
 
 // candidate asks a solver for values of the extraction terms.
